@@ -33,7 +33,7 @@ func c13SlowReader(c *Ctx, b *Bed, listeners []string) {
 
 func c13SlowReaderOn(c *Ctx, b *Bed, listener string) {
 	{
-		for rep := 0; rep < c.N(1, 5); rep++ {
+		for rep := 0; rep < c.N(2, 6); rep++ {
 			if c.Seen("slow-reader:bad-frame:"+listener) || c.Seen("slow-reader:missing-response:"+listener) {
 				break
 			}
@@ -87,18 +87,30 @@ func c13SlowReaderOn(c *Ctx, b *Bed, listener string) {
 			seen := map[uint16]int{}
 			bad := ""
 			frames := 0
+			aborted := false
 			// the client takes 64 kB (whoever was stuck in a write gets on, and whatever has been queued
 			// behind it starts to move), pauses until the third wave of responses has completed, and
 			// then reads everything
-			rd := &c13Paused{r: conn, after: 64 << 10, resume: tStart.Add(3600 * time.Millisecond), grow: func() { raw.(*net.TCPConn).SetReadBuffer(4 << 20) }}
+			// (every other connection does not pause completely the second time: it takes 512 octets every
+			// 100 ms until 6 s have passed - the peer's TCP sees progress all the time, but no response of
+			// 12 kB and more gets through in less than a few seconds)
+			resume := tStart.Add(3600 * time.Millisecond)
+			trickle := rep%2 == 1
+			if trickle {
+				resume = tStart.Add(6000 * time.Millisecond)
+			}
+			rd := &c13Paused{r: conn, after: 64 << 10, resume: resume, trickle: trickle, grow: func() { raw.(*net.TCPConn).SetReadBuffer(4 << 20) }}
 			for frames < nq && bad == "" {
 				var hdr [2]byte
 				if _, err := io.ReadFull(rd, hdr[:]); err != nil {
+					aborted = !isTimeout(err) // the listener hung up (it may drop a client that reads too slowly)
 					break
 				}
 				body := make([]byte, binary.BigEndian.Uint16(hdr[:]))
 				if _, err := io.ReadFull(rd, body); err != nil {
-					bad = fmt.Sprintf("frame %d announces %d octets, the stream ends before they arrive (%v)", frames, len(body), err)
+					if aborted = !isTimeout(err); !aborted {
+						bad = fmt.Sprintf("frame %d announces %d octets, nothing more arrives (%v)", frames, len(body), err)
+					}
 					break
 				}
 				frames++
@@ -122,6 +134,9 @@ func c13SlowReaderOn(c *Ctx, b *Bed, listener string) {
 			c.Ev.Eval(nq)
 			cs := map[string]any{"fn": "c13SlowReader", "listener": listener, "queries": nq, "frames_read": frames}
 			switch {
+			case aborted && bad == "":
+				// what did arrive was well-formed; a connection given up by the listener is not a framing matter
+				c.Ev.Count("slow_reader_connections_ended_by_the_listener", 1)
 			case bad != "":
 				c.Violation("slow-reader:bad-frame:"+listener, fmt.Sprintf("%s: 60 pipelined queries with 12-28 kB answers (ready at once / after 0.5 s / after 2.2-3.2 s), client reading nothing for 1.5 s, then 64 kB, then nothing until 3.6 s: %s", listener, bad), cs)
 			case len(seen) < nq:
@@ -145,25 +160,41 @@ func c13SlowReaderOn(c *Ctx, b *Bed, listener string) {
 }
 
 type c13Paused struct {
-	grow   func()
-	r      io.Reader
-	n      int
-	after  int
-	resume time.Time
+	trickle, done bool
+	grow          func()
+	r             io.Reader
+	n             int
+	after         int
+	resume        time.Time
 }
 
 func (t *c13Paused) Read(p []byte) (int, error) {
-	if t.n >= t.after {
+	if t.n >= t.after && !t.done {
+		if t.trickle && time.Now().Before(t.resume) {
+			time.Sleep(100 * time.Millisecond)
+			if len(p) > 512 {
+				p = p[:512]
+			}
+			n, err := t.r.Read(p)
+			t.n += n
+			return n, err
+		}
 		if d := time.Until(t.resume); d > 0 {
 			time.Sleep(d)
-			if t.grow != nil {
-				t.grow() // from now on the client reads as fast as it can
-			}
 		}
-	} else if len(p) > t.after-t.n {
+		t.done = true
+		if t.grow != nil {
+			t.grow() // from now on the client reads as fast as it can
+		}
+	} else if !t.done && len(p) > t.after-t.n {
 		p = p[:t.after-t.n]
 	}
 	n, err := t.r.Read(p)
 	t.n += n
 	return n, err
+}
+
+func isTimeout(err error) bool {
+	ne, ok := err.(net.Error)
+	return ok && ne.Timeout()
 }
